@@ -2,7 +2,7 @@
 EXTENDS Debounce, Json, IOUtils
 VARIABLES S, node, err, kf, taint
 T == ndJsonDeserialize(IOEnv.TRACE)
-TOut(s, e)   == Out(s, e.op)
+TOut(s, e)   == OutR(s, e.op, e.res)
 TKFOut(s, e) == KFOut(s, e.op)
 TT == INSTANCE TraceTree
 Spec == TT!Spec
